@@ -1,7 +1,7 @@
 SPECIFICATION Spec
 CONSTANTS
   Alphabet = {48, 97, 70, 103, 34, 92, 110, 120}
-  MaxLen = 7
+  MaxLen = 6
   Mode = "buf"
 INVARIANT Agree
 INVARIANT RoundTrip
